@@ -140,7 +140,7 @@ pub fn run(tier: Tier) -> i32 {
     let started = std::time::Instant::now();
     let (h, d, k, a, corpus, secs) = match tier {
         Tier::Quick => (3, 3, 1, 16, 700, 45),
-        Tier::Thorough => (4, 4, 3, 16, 40_000, 1800),
+        Tier::Thorough => (4, 3, 2, 16, 6_000, 2400),
     };
     let set = program_set(k, a, corpus);
     let ctl = RunCtl::new(secs);
